@@ -53,6 +53,7 @@ for tier, k in (("q", 3), ("t", 4)):
     cfg("c03d_" + tier, N1, k, ["blocks", "arrays", "tags", "sources", "groups"], ["refs", "esources", "garrays", "gtags"], [],
         ["Create", "Link", "Close", "Open"], life=2, emit=J3, gen=1)
     cfg("c03f_" + tier, N2, k, ["blocks", "arrays", "tags", "groups"], ["refs", "garrays"], [], ["Create", "Links", "Close", "Open"], life=2, steps=k + 4, emit=["SetLinks", "Open"])
+    cfg("c03g_" + tier, N2, k + 1, ["blocks", "arrays", "tags", "groups"], ["refs", "garrays", "gtags"], [], ["Create", "Link", "Close", "Open"], life=2, steps=k + 3, emit=["AddLink", "RemoveLink", "Open"])
     cfg("c03e_" + tier, N3, k, ["blocks"], [], [], CD, life=2, emit=J3)
     # C04: deletion in link graphs (sibling structures need two names)
     J4 = ["Delete"]
